@@ -277,6 +277,9 @@ class Template(Node):
         self._surface_escape(value, "|")
 
         if self.has(name):
+            if showkey is not None and not showkey and not Parameter.can_hide_key(name):
+                # Refuse before the old value is blanked:
+                raise ValueError("parameter key {!r} cannot be hidden".format(name))
             self.remove(name, keep_field=True)
             existing = self.get(name)
             if showkey is not None:
